@@ -1,3 +1,710 @@
-"""Per-property oracles over (case, real observations, model answers)."""
+"""Per-property oracles over (case, real observations, model answers).
+
+Each `oracle_Cxx(case, real, model)` returns a list of human-readable failure strings (empty = the
+property held on this case).  Relational properties are checked *model-free*: the real library is run
+again on sub-validators / sub-values / the other entry point and the results are compared with each
+other.  `model` is only consulted where the property is a specification (C02, C04's gate, C15, C16),
+and there the proved Lean model *is* the specification.
+"""
 from __future__ import annotations
-from typing import Any, Dict, List
+
+import copy
+import json
+from typing import Any, Dict, Iterable, List, Optional, Tuple
+
+from . import build, engine, wire
+
+MODES = ("sync", "async")
+
+
+def norm(x: Any) -> Any:
+    return wire.normalise(x)
+
+
+def run_alone(vdesc: dict, env: List[dict], xdesc: dict, mode: str) -> dict:
+    """run one validator description on one value description with the real library, fresh objects"""
+    ctx = wire.Ctx()
+    rv = build.build(ctx, vdesc, env)
+    rx = wire.mk_value(ctx, xdesc)
+    return build.run_real(ctx, rv, rx, mode)
+
+
+def unwrap_user(v: dict) -> dict:
+    while v["k"] == "user":
+        v = v["inner"]
+    return v
+
+
+EV_NS = {"pred": "pid", "apred": "pid", "proc": "pid", "uv": "vid", "coerce": "cid", "oc": "id", "aoc": "id",
+         "into": "id"}
+
+
+def ev_key(ev: list) -> Tuple[str, int]:
+    return (EV_NS[ev[0]], ev[1])
+
+
+def subtree_ids(v: dict, env: List[dict], seen: Optional[set] = None) -> set:
+    """(namespace, id) pairs that can appear in trace events of a validator subtree"""
+    out: set = set()
+    seen = seen if seen is not None else set()
+
+    def go(d: Any) -> None:
+        if isinstance(d, dict):
+            if d.get("k") == "lazy":
+                if d["ref"] not in seen:
+                    seen.add(d["ref"])
+                    go(env[d["ref"]])
+            for key in ("vid", "pid", "cid", "id"):
+                if key in d and isinstance(d[key], int) and "kind" not in d:
+                    out.add((key, d[key]))
+                elif key == "vid" and key in d:
+                    out.add((key, d[key]))
+            for x in d.values():
+                go(x)
+        elif isinstance(d, list):
+            for x in d:
+                go(x)
+    go(v)
+    return out
+
+
+def has_async(v: Any, env: List[dict], seen: Optional[set] = None) -> bool:
+    """is an async-only check configured anywhere in the tree (following Lazy references)?"""
+    seen = seen if seen is not None else set()
+    if isinstance(v, dict):
+        if v.get("k") == "lazy":
+            if v["ref"] in seen:
+                return False
+            seen.add(v["ref"])
+            return has_async(env[v["ref"]], env, seen)
+        if v.get("apreds"):
+            return True
+        if v.get("aoc"):
+            return True
+        return any(has_async(x, env, seen) for x in v.values())
+    if isinstance(v, list):
+        return any(has_async(x, env, seen) for x in v)
+    return False
+
+
+DOCUMENTED_ERRS = {"type", "coercion", "preds", "index", "keys", "map", "set", "union", "container", "extraKeys",
+                   "missingKey", "custom"}
+
+
+# ---------------------------------------------------------------------------------------------
+# C01 totality
+
+
+def oracle_C01(case: dict, real: dict, model: dict) -> List[str]:
+    out = []
+    env = case.get("env", [])
+    for m in MODES:
+        o = real[m]["out"]
+        if "valid" in o:
+            continue
+        if "invalid" in o:
+            for node in engine.walk_inv(o["invalid"]):
+                if node["err"]["e"] not in DOCUMENTED_ERRS:
+                    out.append(f"{m}: undocumented error type {node['err']}")
+                if node["vid"] == -1:
+                    out.append(f"{m}: error node names an unknown validator object")
+            continue
+        if "raised" in o:
+            if m == "sync" and o["raised"] == "AssertionError" and has_async(case["v"], env):
+                continue
+            out.append(f"{m}: raised {o['raised']}")
+            continue
+        out.append(f"{m}: returned neither Valid nor Invalid: {o}")
+    return out
+
+
+# ---------------------------------------------------------------------------------------------
+# C06 sync/async agreement
+
+
+def oracle_C06(case: dict, real: dict, model: dict) -> List[str]:
+    out = []
+    s, a = real["sync"], real["async"]
+    so, ao = s["out"], a["out"]
+    env = case.get("env", [])
+    if "raised" in so and so["raised"] == "AssertionError":
+        if not has_async(case["v"], env):
+            out.append("sync raised AssertionError although no async-only check is configured")
+        return out
+    if "raised" in so or "raised" in ao:
+        # totality failures are C01's business; agreement is only claimed for returned results
+        if norm(so) != norm(ao):
+            out.append(f"sync and async differ in raising: {so.get('raised')} vs {ao.get('raised')}")
+        return out
+    if norm(so) != norm(ao):
+        out.append("sync result differs from awaited async result")
+    # the sync call returned: the async run must not have evaluated an async-only check
+    for ev in a["trace"]:
+        if ev[0] in ("apred", "aoc"):
+            out.append(f"sync call returned, but the async run evaluated async-only check {ev}")
+            break
+    return out
+
+
+# ---------------------------------------------------------------------------------------------
+# C14 provenance
+
+
+def oracle_C14(case: dict, real: dict, model: dict) -> List[str]:
+    """walk the real error tree against the validator description tree"""
+    out: List[str] = []
+    env = case.get("env", [])
+    for m in MODES:
+        o = real[m]["out"]
+        if "invalid" not in o:
+            continue
+        prov(case["v"], env, real["xd"], o["invalid"], m, out, m + ":root")
+    return out
+
+
+def same_obj(a: dict, b: dict) -> bool:
+    """same object: equal canonical forms; containers and instances of the input carry unique
+    non-zero oids, so equal forms mean the very same object (scalars: typed equality)"""
+    return norm(a) == norm(b)
+
+
+def prov(v: dict, env: List[dict], x: dict, inv: dict, mode: str, out: List[str], where: str,
+         fuel: int = 200) -> None:
+    """error node `inv` was produced by validator `v` given value `x`"""
+    if fuel <= 0:
+        return
+    k = v["k"]
+    e = inv["err"]["e"]
+    if k == "user":
+        return prov(v["inner"], env, x, inv, mode, out, where, fuel - 1)
+    if k == "lazy":
+        return prov(env[v["ref"]], env, x, inv, mode, out, where, fuel - 1)
+    if k == "knr":
+        return prov(v["inner"], env, x, inv, mode, out, where, fuel - 1)
+    if inv["vid"] != v["vid"]:
+        out.append(f"{where}: error names validator {inv['vid']}, responsible is {v['vid']} ({k})")
+        return
+    if e in ("type", "coercion"):
+        if not same_obj(inv["value"], x):
+            out.append(f"{where}: {e} error does not hold the caller's own object")
+        return
+    if k in ("union", "optional"):
+        if e != "union":
+            out.append(f"{where}: union reported {e}")
+            return
+        if not same_obj(inv["value"], x):
+            out.append(f"{where}: union error does not hold the input")
+        vs = v["vs"] if k == "union" else [v["noneV"], v["inner"]]
+        if len(inv["children"]) != len(vs):
+            out.append(f"{where}: {len(inv['children'])} variant errors for {len(vs)} variants")
+            return
+        for i, (cv, ci) in enumerate(zip(vs, inv["children"])):
+            prov(cv, env, x, ci, mode, out, f"{where}/variant{i}", fuel - 1)
+        return
+    if k == "maybe":
+        if e != "container":
+            out.append(f"{where}: maybe reported {e}")
+            return
+        if not same_obj(inv["value"], x):
+            out.append(f"{where}: container error does not hold the Just it was given")
+        if x["t"] == "just":
+            prov(v["inner"], env, x["v"], inv["children"][0], mode, out, where + "/just", fuel - 1)
+        return
+    if k in ("list", "set", "utuple", "ntuple"):
+        coerced = inv["value"]
+        if e == "preds":
+            # container-level predicate (arity for n-tuples): holds the coerced container
+            if not holds_coerced(v, x, coerced):
+                out.append(f"{where}: container predicate error holds {coerced.get('t')} oid={coerced.get('oid')}, "
+                           f"not the coerced container")
+            return
+        if e in ("index", "set"):
+            if not holds_coerced(v, x, coerced):
+                out.append(f"{where}: element error does not hold the coerced container")
+            elems = coerced.get("xs", [])
+            if e == "index":
+                for idx, ci in zip(inv["err"]["idx"], inv["children"]):
+                    if idx >= len(elems):
+                        out.append(f"{where}: index {idx} out of range")
+                        continue
+                    cv = v["item"] if k != "ntuple" else v["fields"][idx]
+                    prov(cv, env, elems[idx], ci, mode, out, f"{where}[{idx}]", fuel - 1)
+            else:
+                for ci in inv["children"]:
+                    # the member this child error belongs to: some member of the set
+                    if not any(prov_clean(v["item"], env, el, ci, mode) for el in elems):
+                        out.append(f"{where}: set member error matches no member of the set")
+            return
+        if e == "custom" and k == "ntuple":
+            return
+        out.append(f"{where}: {k} reported {e}")
+        return
+    if k == "map":
+        coerced = inv["value"]
+        if e == "preds":
+            if not holds_coerced(v, x, coerced):
+                out.append(f"{where}: map predicate error does not hold the coerced dict")
+            return
+        if e == "map":
+            if not holds_coerced(v, x, coerced):
+                out.append(f"{where}: map error does not hold the coerced dict")
+            kvs = {json.dumps(norm(kk), sort_keys=True): (kk, vv) for kk, vv in coerced.get("kvs", [])}
+            ci = iter(inv["children"])
+            for key, (hk, hv) in zip(inv["err"]["ks"], inv["err"]["shape"]):
+                kk = json.dumps(norm(key), sort_keys=True)
+                if kk not in kvs:
+                    out.append(f"{where}: map error keyed by something that is not an original key")
+                    continue
+                if hk:
+                    prov(v["key"], env, kvs[kk][0], next(ci), mode, out, f"{where}/key", fuel - 1)
+                if hv:
+                    prov(v["value"], env, kvs[kk][1], next(ci), mode, out, f"{where}/val", fuel - 1)
+            return
+        out.append(f"{where}: map reported {e}")
+        return
+    if k == "record":
+        held = inv["value"]
+        if e == "extraKeys":
+            if not holds_coerced(v, x, held):
+                out.append(f"{where}: unknown-keys error does not hold the (coerced) input dict")
+            return
+        if e == "keys":
+            if not holds_coerced(v, x, held):
+                out.append(f"{where}: key error does not hold the (coerced) input dict")
+            data = held if held["t"] == "dict" else (held.get("v") if held["t"] == "sub" else None)
+            kvs = data.get("kvs", []) if data else []
+            for key, ci in zip(inv["err"]["ks"], inv["children"]):
+                decl = [i for i, dk in enumerate(v["keys"]) if norm(dk) == norm(key)]
+                if not decl:
+                    out.append(f"{where}: key error for an undeclared key")
+                    continue
+                cv = v["vals"][decl[0]]
+                if ci["err"]["e"] == "missingKey" and ci["vid"] == v["vid"]:
+                    if not same_obj(ci["value"], held):
+                        out.append(f"{where}: missing-key error does not hold the dict being validated")
+                    continue
+                found = [vv for kk, vv in kvs if py_eq_desc(kk, key)]
+                if not found:
+                    out.append(f"{where}: error for key that is absent from the input")
+                    continue
+                prov(cv, env, found[0], ci, mode, out, f"{where}.{json.dumps(norm(key))[:30]}", fuel - 1)
+            return
+        if e == "custom":
+            return
+        out.append(f"{where}: record validator reported {e}")
+        return
+    if k in ("scalar", "equals"):
+        if e != "preds":
+            out.append(f"{where}: scalar reported {e}")
+        return
+    if k in ("none", "isDict"):
+        out.append(f"{where}: {k} reported {e}")
+        return
+
+
+def prov_clean(v: dict, env: List[dict], x: dict, inv: dict, mode: str) -> bool:
+    o: List[str] = []
+    prov(v, env, x, inv, mode, o, "")
+    return not o
+
+
+def py_eq_desc(a: dict, b: dict) -> bool:
+    ctx = wire.Ctx()
+    try:
+        return bool(wire.mk_value(ctx, a) == wire.mk_value(ctx, b))
+    except Exception:  # noqa
+        return norm(a) == norm(b)
+
+
+def holds_coerced(v: dict, x: dict, held: dict) -> bool:
+    """`held` is the value a later stage of `v` has in hand for input `x`: the input itself (by
+    identity) when no coercion changed it, else a fresh object with the input's contents"""
+    if norm(held) == norm(x):
+        return True   # same object (oids equal)
+    co = v.get("coerce")
+    if co is None and not (v["k"] == "record" and v["kind"] in ("dataclass", "namedtuple") and x["t"] == "inst"):
+        return False
+    # coerced: contents must come from the input
+    hx = held.get("xs")
+    if hx is not None:
+        xx = x.get("xs")
+        if xx is None:
+            return False
+        a = sorted(json.dumps(norm(i), sort_keys=True) for i in hx)
+        b = sorted(json.dumps(norm(i), sort_keys=True) for i in xx)
+        return a == b or held["t"] == "set"
+    if held["t"] == "dict":
+        if x["t"] == "inst":
+            hv = [norm(p[1]) for p in held["kvs"]]
+            xv = [norm(i) for i in x["vals"]]
+            if hv != xv:
+                return False
+            if x["cls"]["kind"] == 1 and not x["cls"]["slots"]:
+                return held["oid"] == x.get("doid", 0) and held["oid"] != 0   # the instance's own __dict__
+            return held["oid"] == 0
+        return True
+    return False
+
+
+# ---------------------------------------------------------------------------------------------
+# C03 collections: model-free re-run of the child on every element
+
+
+def seq_gate(v: dict, x: dict) -> Optional[List[dict]]:
+    """elements of the coerced container if the container gate passes under the documented
+    coercions, None if it must fail; raises KeyError for user coercers (not decided here)"""
+    k = v["k"]
+    co = v.get("coerce")
+    want = {"list": "list", "set": "set", "utuple": "tuple", "ntuple": "tuple"}[k]
+    if co is None:
+        return x["xs"] if x["t"] == want else None
+    if co == "default":
+        return x["xs"] if x["t"] in ("tuple", "list") else None
+    raise KeyError("user coercer")
+
+
+def oracle_C03(case: dict, real: dict, model: dict) -> List[str]:
+    out: List[str] = []
+    v = unwrap_user(case["v"])
+    env = case.get("env", [])
+    if v["k"] not in ("list", "set", "utuple", "ntuple", "map"):
+        return out
+    x = real["xd"]
+    for m in MODES:
+        o = real[m]["out"]
+        if "raised" in o:
+            continue
+        child_ids = set()
+        for cv in ([v["item"]] if "item" in v else v.get("fields", []) + ([v["key"], v["value"]] if v["k"] == "map" else [])):
+            child_ids |= subtree_ids(cv, env)
+        own = {("pid", p["pid"]) for p in (v.get("preds") or []) + (v.get("apreds") or [])}
+        child_events = [ev for ev in real[m]["trace"] if ev_key(ev) in child_ids and ev_key(ev) not in own]
+        if "invalid" in o and o["invalid"]["vid"] == v["vid"] and o["invalid"]["err"]["e"] in ("type", "coercion", "preds"):
+            if child_events:
+                out.append(f"{m}: container-level failure but elements were validated: {child_events[:3]}")
+            continue
+        # elements as the documented gate yields them
+        try:
+            if v["k"] == "map":
+                if v.get("coerce") is not None:
+                    continue
+                if x["t"] != "dict":
+                    out.append(f"{m}: map validator got past its gate on a {x['t']}")
+                    continue
+                elems = None
+            else:
+                elems = seq_gate(v, x)
+                if elems is None:
+                    out.append(f"{m}: {v['k']} validator got past its gate on a {x['t']}")
+                    continue
+        except KeyError:
+            continue
+        if v["k"] == "map":
+            out += check_map(v, env, x, o, m)
+            continue
+        kids = [v["item"]] * len(elems) if v["k"] != "ntuple" else v["fields"]
+        if v["k"] == "ntuple" and len(elems) != len(kids):
+            out.append(f"{m}: n-tuple of wrong arity got past the arity check")
+            continue
+        results = [run_alone(cv, env, el, m)["out"] for cv, el in zip(kids, elems)]
+        if any("raised" in r for r in results):
+            continue
+        bad = [i for i, r in enumerate(results) if "invalid" in r]
+        if not bad:
+            if "valid" not in o:
+                if v["k"] == "ntuple" and v.get("oc") and o["invalid"]["err"]["e"] == "custom":
+                    continue
+                out.append(f"{m}: every element is accepted by the child, yet the container is rejected")
+                continue
+            pay = [r["valid"] for r in results]
+            exp_t = {"list": "list", "set": "set", "utuple": "tuple", "ntuple": "tuple"}[v["k"]]
+            got = o["valid"]
+            if got["t"] != exp_t:
+                out.append(f"{m}: payload is a {got['t']}, expected {exp_t}")
+            elif got["oid"] != 0 and not (exp_t == "tuple" and not got["xs"]):
+                out.append(f"{m}: payload is not a new container")
+            elif exp_t == "set":
+                if norm({"t": "set", "oid": 0, "xs": got["xs"]}) != norm(py_set(pay)):
+                    out.append(f"{m}: set payload is not the set of the children's payloads")
+            elif norm(got["xs"]) != norm(pay):
+                out.append(f"{m}: payload elements are not the children's payloads in order")
+        else:
+            if "invalid" not in o:
+                out.append(f"{m}: elements {bad} are rejected by the child, yet the container is accepted")
+                continue
+            inv = o["invalid"]
+            if v["k"] == "set":
+                if inv["err"]["e"] != "set":
+                    out.append(f"{m}: set rejected with {inv['err']['e']}")
+                elif sorted(json.dumps(norm(c), sort_keys=True) for c in inv["children"]) != \
+                        sorted(json.dumps(norm(results[i]["invalid"]), sort_keys=True) for i in bad):
+                    out.append(f"{m}: set member errors are not exactly the children's own errors")
+            else:
+                if inv["err"]["e"] != "index":
+                    out.append(f"{m}: sequence rejected with {inv['err']['e']} instead of index errors")
+                elif inv["err"]["idx"] != bad:
+                    out.append(f"{m}: failing positions {inv['err']['idx']} reported, children reject {bad}")
+                elif norm(inv["children"]) != norm([results[i]["invalid"] for i in bad]):
+                    out.append(f"{m}: an index error is not the child's own Invalid")
+    return out
+
+
+def py_set(pay: List[dict]) -> dict:
+    ctx = wire.Ctx()
+    s = set()
+    for p in pay:
+        s.add(wire.mk_value(ctx, p))
+    return {"t": "set", "oid": 0, "xs": [wire.canon_value(ctx, e) for e in s]}
+
+
+def check_map(v: dict, env: List[dict], x: dict, o: dict, m: str) -> List[str]:
+    out: List[str] = []
+    kr = [run_alone(v["key"], env, kk, m)["out"] for kk, _ in x["kvs"]]
+    vr = [run_alone(v["value"], env, vv, m)["out"] for _, vv in x["kvs"]]
+    if any("raised" in r for r in kr + vr):
+        return out
+    bad = [i for i in range(len(kr)) if "invalid" in kr[i] or "invalid" in vr[i]]
+    if not bad:
+        if "valid" not in o:
+            return [f"{m}: all keys and values accepted, yet the map is rejected"]
+        ctx = wire.Ctx()
+        exp: Dict[Any, Any] = {}
+        try:
+            for a, b in zip(kr, vr):
+                exp[wire.mk_value(ctx, a["valid"])] = wire.mk_value(ctx, b["valid"])
+        except TypeError:
+            return out
+        expd = wire.canon_value(ctx, exp)
+        expd["oid"] = 0
+        if o["valid"].get("oid") != 0:
+            out.append(f"{m}: map payload is not a new dict")
+        if norm(o["valid"]) != norm(expd):
+            out.append(f"{m}: map payload is not built from the children's payloads")
+        return out
+    if "invalid" not in o:
+        return [f"{m}: pairs {bad} rejected by the children, yet the map is accepted"]
+    inv = o["invalid"]
+    if inv["err"]["e"] != "map":
+        return [f"{m}: map rejected with {inv['err']['e']}"]
+    exp_ks = [x["kvs"][i][0] for i in bad]
+    if norm(inv["err"]["ks"]) != norm(exp_ks):
+        out.append(f"{m}: map errors keyed by {len(inv['err']['ks'])} keys, children reject {len(bad)} pairs")
+        return out
+    exp_children = []
+    exp_shape = []
+    for i in bad:
+        hk, hv = "invalid" in kr[i], "invalid" in vr[i]
+        exp_shape.append([hk, hv])
+        if hk:
+            exp_children.append(kr[i]["invalid"])
+        if hv:
+            exp_children.append(vr[i]["invalid"])
+    if inv["err"]["shape"] != exp_shape or norm(inv["children"]) != norm(exp_children):
+        out.append(f"{m}: key/value parts of a map error are not the children's own errors")
+    return out
+
+
+# ---------------------------------------------------------------------------------------------
+# C05 unions and wrappers: run variants / inner validators separately
+
+
+def oracle_C05(case: dict, real: dict, model: dict) -> List[str]:
+    out: List[str] = []
+    v = case["v"]
+    env = case.get("env", [])
+    x = real["xd"]
+    k = v["k"]
+    for m in MODES:
+        o = real[m]["out"]
+        if "raised" in o:
+            continue
+        if k in ("union", "optional"):
+            vs = v["vs"] if k == "union" else [v["noneV"], v["inner"]]
+            rs = []
+            for cv in vs:
+                r = run_alone(cv, env, x, m)
+                rs.append(r)
+                if "valid" in r["out"] or "raised" in r["out"]:
+                    break
+            if any("raised" in r["out"] for r in rs):
+                continue
+            first = next((i for i, r in enumerate(rs) if "valid" in r["out"]), None)
+            if first is not None:
+                if "valid" not in o:
+                    out.append(f"{m}: variant {first} accepts but the union rejects")
+                elif norm(o["valid"]) != norm(rs[first]["out"]["valid"]):
+                    out.append(f"{m}: union payload is not the first accepting variant's payload")
+                later = set()
+                for cv in vs[first + 1:]:
+                    later |= subtree_ids(cv, env)
+                earlier = set()
+                for cv in vs[:first + 1]:
+                    earlier |= subtree_ids(cv, env)
+                consulted = [ev for ev in real[m]["trace"] if ev_key(ev) in later and ev_key(ev) not in earlier]
+                if consulted:
+                    out.append(f"{m}: variants after the first accepting one were consulted: {consulted[:3]}")
+            else:
+                if "invalid" not in o:
+                    out.append(f"{m}: no variant accepts but the union accepts")
+                else:
+                    inv = o["invalid"]
+                    if inv["err"]["e"] != "union" or norm(inv["children"]) != norm([r["out"]["invalid"] for r in rs]):
+                        out.append(f"{m}: union error is not the list of every variant's own error in order")
+        elif k in ("lazy", "user"):
+            inner = env[v["ref"]] if k == "lazy" else v["inner"]
+            r = run_alone(inner, env, x, m)["out"]
+            if norm(r) != norm(o):
+                out.append(f"{m}: {k} wrapper does not return what the wrapped validator returns")
+        elif k == "maybe":
+            if x["t"] == "nothing":
+                if norm(o) != {"valid": {"t": "nothing"}}:
+                    out.append(f"{m}: nothing is not mapped to nothing")
+            elif x["t"] == "just":
+                r = run_alone(v["inner"], env, x["v"], m)["out"]
+                if "raised" in r:
+                    continue
+                if "valid" in r:
+                    if "valid" not in o or norm(o["valid"]) != norm({"t": "just", "oid": 0, "v": r["valid"]}):
+                        out.append(f"{m}: Just(x) is not mapped to a new Just(payload of x)")
+                elif "invalid" not in o or o["invalid"]["err"]["e"] != "container" or \
+                        norm(o["invalid"]["children"]) != norm([r["invalid"]]):
+                    out.append(f"{m}: rejected Just does not carry the inner validator's error")
+            elif "invalid" not in o or o["invalid"]["err"]["e"] != "type":
+                out.append(f"{m}: maybe validator accepted / mis-reported a non-Maybe value")
+        elif k == "always":
+            if norm(o) != norm({"valid": x}):
+                out.append(f"{m}: AlwaysValid did not return the value unchanged")
+        elif k == "knr":
+            r = run_alone(v["inner"], env, x, m)["out"]
+            if "valid" in r:
+                if "valid" not in o or norm(o["valid"]) != norm({"t": "just", "oid": 0, "v": r["valid"]}):
+                    out.append(f"{m}: KeyNotRequired did not wrap the payload in Just")
+            elif norm(r) != norm(o):
+                out.append(f"{m}: KeyNotRequired changed the inner validator's error")
+    return out
+
+
+# ---------------------------------------------------------------------------------------------
+# C17 fixed point
+
+
+def idem_tree(v: Any, env: List[dict], seen: Optional[set] = None) -> bool:
+    """the tree is inside C17's quantifier: no user coercers / non-idempotent processors, unions
+    with coercer- and processor-free variants, dict-building record targets, KeyNotRequired only in
+    key position (free-standing markers are generated only there)"""
+    seen = seen if seen is not None else set()
+    if isinstance(v, list):
+        return all(idem_tree(x, env, seen) for x in v)
+    if not isinstance(v, dict):
+        return True
+    k = v.get("k")
+    if k == "lazy":
+        if v["ref"] in seen:
+            return True
+        seen.add(v["ref"])
+        return idem_tree(env[v["ref"]], env, seen)
+    if isinstance(v.get("coerce"), dict):
+        return False
+    for p in v.get("pre") or []:
+        if p["k"] == "user":
+            return False
+    if k in ("union", "optional"):
+        vs = v["vs"] if k == "union" else [v["inner"]]
+        if len(vs) > 1 or k == "optional":
+            for cv in vs:
+                if not coerce_free(cv, env, set()):
+                    return False
+    if k == "record":
+        if v["kind"] == "record" and v["into"]["f"] != "dictOf":
+            return False
+        if v["kind"] == "record" and any(not r for r in v["reqs"]):
+            # absent optional keys become `nothing` in the built dict, which the child rejects
+            return False
+    if k == "none" and v.get("coerce"):
+        return False
+    return all(idem_tree(x, env, seen) for key, x in v.items() if key not in ("m", "v", "vs_", "keys", "defaults", "cls"))
+
+
+def coerce_free(v: Any, env: List[dict], seen: set) -> bool:
+    if isinstance(v, list):
+        return all(coerce_free(x, env, seen) for x in v)
+    if not isinstance(v, dict):
+        return True
+    if v.get("k") == "lazy":
+        if v["ref"] in seen:
+            return True
+        seen.add(v["ref"])
+        return coerce_free(env[v["ref"]], env, seen)
+    if v.get("coerce") or v.get("pre"):
+        return False
+    if v.get("k") == "record" and v["kind"] in ("dataclass", "namedtuple", "record"):
+        return False   # these rebuild / convert their input
+    return all(coerce_free(x, env, seen) for key, x in v.items() if key not in ("m", "keys", "defaults", "cls"))
+
+
+def oracle_C17(case: dict, real: dict, model: dict) -> List[str]:
+    out: List[str] = []
+    env = case.get("env", [])
+    if not idem_tree(case["v"], env):
+        return out
+    if not defaults_accepted(case["v"], env):
+        return out
+    for m in MODES:
+        o = real[m]["out"]
+        if "valid" not in o:
+            continue
+        if m == "sync" and has_async(case["v"], env):
+            continue   # the payload may reach an async-configured child the input did not
+        w = wire_fresh(o["valid"])
+        r2 = run_alone(case["v"], env, w, m)["out"]
+        if "raised" in r2:
+            out.append(f"{m}: re-validating the payload raised {r2['raised']}")
+        elif "valid" not in r2:
+            out.append(f"{m}: the validator rejects its own payload ({r2['invalid']['err']['e']})")
+        elif strip_ids(norm(r2["valid"])) != strip_ids(norm(w)):
+            out.append(f"{m}: re-validating the payload changed it")
+    return out
+
+
+def defaults_accepted(v: Any, env: List[dict]) -> bool:
+    """record-class defaults are accepted unchanged by their own field validators"""
+    if isinstance(v, list):
+        return all(defaults_accepted(x, env) for x in v)
+    if not isinstance(v, dict):
+        return True
+    if v.get("k") == "record" and v["kind"] in ("dataclass", "namedtuple"):
+        for cv, d in zip(v["vals"], v["defaults"]):
+            if d is None:
+                continue
+            r = run_alone(cv, env, wire_fresh(d), "async")["out"]
+            if "valid" not in r or strip_ids(norm(r["valid"])) != strip_ids(norm(d)):
+                return False
+    return all(defaults_accepted(x, env) for key, x in v.items() if key not in ("m", "keys", "defaults", "cls"))
+
+
+def wire_fresh(x: Any) -> Any:
+    """give every container of a payload a fresh distinct oid so that it can be rebuilt as input"""
+    counter = [5000]
+
+    def go(d: Any) -> Any:
+        if isinstance(d, dict):
+            d = {k: go(v) for k, v in d.items()}
+            if "oid" in d:
+                counter[0] += 1
+                d["oid"] = counter[0]
+            if d.get("doid") == 0 and d.get("t") == "inst" and d["cls"]["kind"] == 1 and not d["cls"]["slots"]:
+                counter[0] += 1
+                d["doid"] = counter[0]
+            return d
+        if isinstance(d, list):
+            return [go(v) for v in d]
+        return d
+    return go(copy.deepcopy(x))
+
+
+def strip_ids(x: Any) -> Any:
+    if isinstance(x, dict):
+        return {k: (0 if k in ("oid", "doid") else strip_ids(v)) for k, v in x.items()}
+    if isinstance(x, list):
+        return [strip_ids(v) for v in x]
+    return x
